@@ -184,6 +184,30 @@ _R5 = {
 for _p, _t in _R5.items():
     PROPS[_p]["rule"] += _t
 
+# ---- workloads added while rounds 6 and 7 were worked through (DESIGN.md 12.4)
+_R67 = {
+ "C01": " Plus: walks over caches of 1100-2000 objects (mass deletions, 1-6% survivors, a third of them stale), version bases beyond 2^31/2^32/2^53, keys without a namespace; a concurrent reader while a slow-filter sync/refilter is in progress (every read = content before or after), also with the context cancelled by the filter at object k.",
+ "C03": " Plus: collections of 520-2500 objects behind a server that honours limit/continue with a watch that delivers nothing.",
+ "C04": " Plus: connect errors of the timeout class and API status errors (401/410/429/503); a relist consumed at the expiry of a pending reconnect delay (later events must still arrive within the delay); a stream ending while 50-100 events wait in the watcher's buffer for longer than the reconnect delay.",
+ "C05": " Plus: a publisher whose own cache has a label filter (objects leave by relabelling), consumers reading their cache through Get and List alternately on every event; mid-stream Refilter to a fresh accept-all function filter.",
+ "C06": " Plus: deferred nodes whose first filter arrives after 120-320 parent events.",
+ "C07": " Plus: objects with versions beyond 32/53 bits; Refilter below a filtered clone that has just dropped an object; an NSName filter built repeatedly from a slice the caller keeps and edits; an equal filter immediately followed by a different one with the node held at its log point.",
+ "C09": " Plus: a destination watch that loses a third of its events (relist-discovered changes); three failed join creations over a stopped destination leave the goroutine census unchanged.",
+ "C10": " Plus: overrun, a virtual stall of 50 ms to 10 min with events trickling in, resume (siblings exact, resumed consumer gets what is published once it has room).",
+ "C11": " Plus: the cascade after an overrun (lagging consumer draining during the overrun; oversized refilter batch for an idle reader, then close); fatal list errors of the context.Canceled / DeadlineExceeded classes.",
+ "C12": " Plus: state 'slow-connect' (a cancellation during connect is answered with the established stream; streams never Stop()ped count as zombies); Close/cancel aimed at the expiry of a pending reconnect delay (sweep in quarter holds); join scenarios (create/close cycles, failed creations) for leak and hang classes.",
+ "C13": " Plus: refresh periods of 3-146 years; four builders configured in one order and created in another, each relisting at its own (or the default) period.",
+ "C14": " Plus: a failing relist released at the expiry of a pending reconnect delay.",
+ "C16": " Plus: events queued in a monitor's subscription before a readiness that never comes; the core handler builder reused after Create(); monitors on a real controller whose first list fails (7 kinds).",
+ "C17": " Plus: atoms with empty-string label values, selectors not built from a label set (NewSelector, Everything, Nothing, parsed), label keys/values containing ',' '=', cluster-scoped NSName entries, prefix namespaces; every ordered pair of selector-like atoms under And/Or; PodsFilter rebuilt 3x from the caller's own slice; sources whose glued namespace+name collide, in all orders.",
+ "C18": " Plus: the same extended atoms and universe (cluster-scoped objects, prefix namespaces, empty label values, odd characters), every ordered pair of selector-like atoms under And/Or.",
+ "C19": " Plus: resource-backend ingress paths in first/middle/last position; events about cluster-scoped objects stored in a namespace; empty-string selector values.",
+ "C20": " Plus: typed handler builders reused after Create() compared with the core builder; subscriptions closed with 1-130 unread events on both sides (goroutine census taken before anybody drains them).",
+}
+for _p, _t in _R67.items():
+    PROPS[_p]["rule"] += _t
+
+
 # ---- coverage floors (quick tier): half of what a quick run at seed 1 observes; counts that are
 # deterministic by construction (states, pairs of C07, request-checks) are exact; throughput-dependent
 # counters of the real-time stress cases (big-snapshots, stress-typed-reads) are 5%.  A thorough run must
